@@ -175,6 +175,9 @@ def std_kinds(names, cfg_fn=None, cfg_fn2=None, partial_fn=None):
       'eqpar': Kind('eqpar', 2, True, mk_buildable(fdl.Partial, N.eqnode),
                     True),
       'eqpos': Kind('eqpos', 3, True, mk_eqpos, True),
+      'eq3': Kind('eq3', 3, True, lambda vals: fdl.Config(N.eq3, **{
+          n: v for n, v in zip(('x', 'y', 'z'), vals) if v is not UNSET}),
+                  True),
       'dict2r': Kind('dict2r', 2, False,
                      lambda v: {k: x for k, x in zip(('b', 'a'), reversed(v))}),
       'dictmix': Kind('dictmix', 2, False,
